@@ -427,6 +427,81 @@ def parse (doc : Bytes) (prog : Prog) (maxDepth : Nat) : Except Fault Result := 
     let (st, ok) ← nodeNextSibling doc prog (fuelFor doc) st
     return ⟨ok, st.lastErr, st.events.reverse⟩
 
+-- ---------------------------------------------------------------- callbacks that ignore a failing traverse
+/-! Executable copies of `nodeLoop` / `traverse` / `nodeNextSibling` / `parse` in which a callback whose action is
+`descend` may discard the return value of `aws_xml_node_traverse` and return success (`ign path`).  Used by the
+driver only (op programs with action `D`); the theorems are about `parse`, i.e. `ign = fun _ => false`, and
+`c12_depth_refusal_sticky` says why ignoring a depth refusal still fails the parse. -/
+
+/-- `return aws_xml_node_traverse(…)` vs. `aws_xml_node_traverse(…); return AWS_OP_SUCCESS;` -/
+def ignoreFailure (ign : List Nat → Bool) (trav : PState → List Nat → Except Fault (PState × Bool))
+    (st : PState) (path : List Nat) : Except Fault (PState × Bool) := do
+  let (st', ok) ← trav st path
+  return (st', ok || ign path)
+
+def nodeLoopIgn (doc : Bytes) (prog : Prog) (ign : List Nat → Bool) : Nat → PState → List Nat → Nat → Except Fault (PState × Bool)
+  | 0, _, _, _ => .error .fuel
+  | f+1, st, path, idx =>
+    if st.error then .ok ({ st with depth := st.depth - 1 }, false) else do
+    let r ← memchr doc st.cur.off st.cur.len LT
+    match r with
+    | none => return ({ st with error := true, lastErr := .invalidXml }, false)
+    | some k =>
+      let next := st.cur.off + k
+      let r2 ← memchr doc next (st.cur.len - k) GT
+      match r2 with
+      | none => return ({ st with error := true, lastErr := .invalidXml }, false)
+      | some j =>
+        let c ← rd doc (next + 1)
+        let parentClosed := c = SLASH
+        let st := { st with cur := advance st.cur (k + j + 1) }
+        if parentClosed then return ({ st with depth := st.depth - 1 }, !st.error) else do
+        -- `node_name_len - 1` cannot wrap: the byte at `next` is '<', so j ≥ 1
+        let decl : Cur := ⟨next + 1, j - 1⟩
+        let (n, le) ← loadNodeDecl doc decl st.cur st.lastErr
+        let st := { st with lastErr := le }
+        match n with
+        | none => return (st, false)           -- `return AWS_OP_ERR` (no pop, parser.error untouched)
+        | some node =>
+          let (st, ok) ← callbackAndSkip doc prog (ignoreFailure ign (traverseWith (nodeLoopIgn doc prog ign f))) st node (path ++ [idx])
+          if !ok then return ({ st with error := true }, false)
+          nodeLoopIgn doc prog ign f st path (idx + 1)
+
+def traverseIgn (doc : Bytes) (prog : Prog) (ign : List Nat → Bool) (fuel : Nat) : PState → List Nat → Except Fault (PState × Bool) :=
+  traverseWith (nodeLoopIgn doc prog ign fuel)
+
+def nodeNextSiblingIgn (doc : Bytes) (prog : Prog) (ign : List Nat → Bool) (fuel : Nat) (st : PState) : Except Fault (PState × Bool) := do
+  let r ← memchr doc st.cur.off st.cur.len LT
+  match r with
+  | none => return (st, !st.error)
+  | some k =>
+    let st := { st with cur := advance st.cur k }
+    let r2 ← memchr doc st.cur.off st.cur.len GT
+    match r2 with
+    | none => return (st.raise .invalidXml, false)
+    | some j =>
+      let next := st.cur.off
+      let st := { st with cur := advance st.cur (j + 1) }
+      let decl : Cur := ⟨next + 1, j - 1⟩
+      let (n, le) ← loadNodeDecl doc decl st.cur st.lastErr
+      let st := { st with lastErr := le }
+      match n with
+      | none => return (st, false)
+      | some node =>
+        let (st, ok) ← callbackAndSkip doc prog (ignoreFailure ign (traverseIgn doc prog ign fuel)) st node []
+        if !ok then return (st, false)
+        return (st, !st.error)
+
+def parseIgn (doc : Bytes) (prog : Prog) (ign : List Nat → Bool) (maxDepth : Nat) : Except Fault Result := do
+  let md := if maxDepth = 0 then DEFAULT_MAX_DEPTH else maxDepth
+  let c ← preamble doc (fuelFor doc) ⟨0, doc.length⟩
+  match c with
+  | none => return ⟨false, .invalidXml, []⟩
+  | some cur =>
+    let st : PState := { cur := cur, depth := 1, maxDepth := md, error := false, lastErr := .none, events := [] }
+    let (st, ok) ← nodeNextSiblingIgn doc prog ign (fuelFor doc) st
+    return ⟨ok, st.lastErr, st.events.reverse⟩
+
 /-- bytes of a view (for printing and for the event theorems); views are inside the document by
 `c04_xml_views_inside`, so no fault channel here -/
 def viewBytes (doc : Bytes) : View → Bytes
